@@ -950,7 +950,11 @@ class Executor(object):
         if n in ('True', 'False', 'None'):
             return {'True': True, 'False': False, 'None': None}[n]
         if n in m.assigns:
-            v = self.eval(m.assigns[n], State())
+            try:
+                v = self.eval(m.assigns[n], State())
+            except VCError:
+                # a module-level object the subset cannot build (logger, ...)
+                v = Opaque('modconst:' + n)
             self._modconst_cache[n] = v
             return v
         if n in m.functions:
@@ -994,8 +998,6 @@ class Executor(object):
         if n in ('ValueError', 'RuntimeError', 'TypeError', 'KeyError',
                  'NotImplementedError', 'Exception', 'AttributeError'):
             return Opaque('exc:' + n)
-        self.oblige('unbound.%s' % n, st or State(), False,
-                    self.where(node) if node is not None else '', 'unbound')
         raise VCError('unknown name %s at %s' % (
             n, self.where(node) if node is not None else '?'))
 
@@ -1087,6 +1089,8 @@ class Executor(object):
         return self.load(base, idx, st, node)
 
     def load(self, base, idx, st, node):
+        if hasattr(base, 'vc_getitem'):
+            return base.vc_getitem(idx, self, st, node)
         if isinstance(base, (list, tuple)):
             if isinstance(idx, slice):
                 if any(is_sym(x) for x in (idx.start, idx.stop, idx.step)):
@@ -1161,6 +1165,12 @@ class Executor(object):
         return self.binop(node.op, a, b, st, node)
 
     def binop(self, op, a, b, st, node):
+        # values modelled by a contract (numpy vectors, ...) implement the
+        # operator themselves
+        if hasattr(a, 'vc_binop'):
+            return a.vc_binop(type(op).__name__, b, False, self, st, node)
+        if hasattr(b, 'vc_binop'):
+            return b.vc_binop(type(op).__name__, a, True, self, st, node)
         if isinstance(op, ast.Add):
             return S.add(a, b)
         if isinstance(op, ast.Sub):
@@ -1277,6 +1287,10 @@ class Executor(object):
 
     def compare(self, op, a, b, node):
         t = type(op)
+        if t in _CMP and hasattr(a, 'vc_compare'):
+            return a.vc_compare(_CMP[t], b, False)
+        if t in _CMP and hasattr(b, 'vc_compare'):
+            return b.vc_compare(_CMP[t], a, True)
         if t in _CMP:
             if isinstance(a, Opaque) or isinstance(b, Opaque):
                 raise VCError('comparison of opaque value at %s' %
@@ -1555,6 +1569,8 @@ class Executor(object):
 
     def call_builtin(self, name, args, kwargs, st, node):
         if name == 'abs' or name == 'fabs':
+            if hasattr(args[0], 'vc_abs'):
+                return args[0].vc_abs()
             return S.absval(args[0])
         if name == 'min' or name == 'max':
             f = S.minval if name == 'min' else S.maxval
@@ -1585,6 +1601,8 @@ class Executor(object):
             return S.to_bool(args[0])
         if name == 'len':
             v = args[0]
+            if hasattr(v, 'vc_len'):
+                return v.vc_len(self, st, node)
             if isinstance(v, SymArray):
                 return v.length
             return len(v)
@@ -1693,6 +1711,8 @@ class Executor(object):
             return False
         if name == 'any' or name == 'all':
             v = args[0]
+            if hasattr(v, 'vc_any'):
+                return v.vc_any() if name == 'any' else v.vc_all()
             if isinstance(v, _SymGen):
                 return v.exists() if name == 'any' else v.forall()
             r = [S.to_bool(x) for x in v]
